@@ -129,6 +129,16 @@ def snap_eager(*args, **kwargs):
     return Snapshot("VSnapEager", args, kwargs)
 
 
+def snap_strict(size=1, options=None):
+    """A helper with an explicit signature: it takes these two keywords and no others."""
+    return Snapshot("VSnapStrict", (), {"size": size, "options": options})
+
+
+@yaml_tag(eager=True)
+def snap_strict_now(size=1, options=None):
+    return Snapshot("VSnapStrictNow", (), {"size": size, "options": options})
+
+
 EXTRA = []
 
 
